@@ -65,6 +65,21 @@ int main(void) {
 			if (rc == KSI_OK) { unsigned char **bufs; KSI_CertConstraint *arr = constraints(tok + 2, n - 2, &bufs);
 				rc = KSI_CTX_setDefaultPubFileCertConstraints(ctx, arr); free_constraints(arr, bufs); }
 			printf("R ctx rc=0x%x\n", rc);
+		} else if (!strcmp(tok[0], "REVERIFY")) {
+			/* REVERIFY <fileHex> <caFile|-> <oid valueHex>...: the file is parsed and verified under the current context; then the SAME context gets another trust
+			 * store and other default constraints and the SAME file object is verified again -> R reverify parse=.. first=.. second=.. */
+			size_t l; unsigned char *b = hx_dec(tok[1], &l); KSI_PublicationsFile *pf = NULL; int rc, v1 = -1, v2 = -1; KSI_PKITruststore *pki = NULL;
+			rc = KSI_PublicationsFile_parse(ctx, b, l, &pf); free(b);
+			if (rc == KSI_OK) {
+				v1 = KSI_PublicationsFile_verify(pf, ctx);
+				rc = KSI_PKITruststore_new(ctx, 0, &pki);
+				if (rc == KSI_OK && strcmp(tok[2], "-")) rc = KSI_PKITruststore_addLookupFile(pki, tok[2]);
+				if (rc == KSI_OK) { rc = KSI_CTX_setPKITruststore(ctx, pki); if (rc != KSI_OK) KSI_PKITruststore_free(pki); } else KSI_PKITruststore_free(pki);
+				if (rc == KSI_OK) { unsigned char **bufs; KSI_CertConstraint *arr = constraints(tok + 3, n - 3, &bufs);
+					rc = KSI_CTX_setDefaultPubFileCertConstraints(ctx, arr); free_constraints(arr, bufs); }
+				if (rc == KSI_OK) v2 = KSI_PublicationsFile_verify(pf, ctx);
+			}
+			printf("R reverify parse=0x%x first=0x%x second=0x%x\n", rc, (unsigned)v1, (unsigned)v2); KSI_PublicationsFile_free(pf);
 		} else if (!strcmp(tok[0], "PARSE") || !strcmp(tok[0], "VERIFY") || !strcmp(tok[0], "LOAD")) {
 			size_t l; unsigned char *b = hx_dec(tok[1], &l); KSI_PublicationsFile *pf = NULL; int rc;
 			rc = KSI_PublicationsFile_parse((pctx != NULL && !strcmp(tok[0], "VERIFY")) ? pctx : ctx, b, l, &pf); free(b);
